@@ -5,7 +5,7 @@ CONSTANTS
   Chunk = 31457280
   ChunkOverhead = 16
   OpSize = 8
-  WrapOverhead = 0
+  WrapOverhead = 32
   UseSize = 32
   RawSizes = {}
   FileSizes = {}
